@@ -435,6 +435,7 @@ def run_c11() -> int:
     chk.nontrivial = {(tuple(i["s"]), tuple(i["l"])) for i in items}
     chk.note("conformance_drift", drift)
     chk.sample({"short_axis": items[-1]["s"], "long_axis": items[-1]["l"], "joined_axis": items[-1]["x"]})
+    ginterp(chk)
     ngf = 0
     for n, bad in parallel_map(_gfunction_cases, [chk.seed * 31 + i for i in range(8 if t == "quick" else 64)]):
         ngf += n
@@ -456,3 +457,80 @@ def run_c11() -> int:
     chk.evaluations += ngf + len(cases)
     chk.exhaustive = True
     return chk.finish()
+
+
+# ------------------------------------------------------------------------------------------------
+# GInterp.tla : the decision table and the cache of g_function_interpolation
+# ------------------------------------------------------------------------------------------------
+def _ginterp_case(item):
+    import_repo()
+    import numpy as np  # noqa: PLC0415
+
+    from ghedesigner.gfunction import GFunction  # noqa: PLC0415
+
+    n, qs, outs = item["n"], item["qs"], item["outs"]
+    hs = [60.0, 75.0, 97.5, 120.0, 150.0][:n]
+    logt = [-8.5, -5.0, -1.0, 2.0]
+    curves = {h: [1.0 + 0.7 * (lt + 9) + 0.013 * h + 0.00004 * h * h for lt in logt] for h in hs}
+    gf = GFunction(b=5.0, d=2.0, r_b_values={h: 0.075 for h in hs}, g_lts={h: list(curves[h]) for h in hs}, log_time=list(logt), bore_locations=[(0, 0), (5, 0)])
+    hq = {"min": hs[0], "max": hs[-1], "mid_stored": hs[len(hs) // 2], "inside": (hs[0] + hs[min(1, len(hs) - 1)]) / 2 + 1.3, "below_snap": hs[0] - 5e-7, "above_snap": hs[-1] + 5e-7,
+          "below_tol": hs[0] - 5e-4, "below_far": hs[0] - 7.0, "above_far": hs[-1] + 9.0}
+    nearest = {"min": hs[0], "max": hs[-1], "mid_stored": hs[len(hs) // 2], "below_snap": hs[0], "above_snap": hs[-1]}
+    bad = []
+    for i, (q, want) in enumerate(zip(qs, outs)):
+        with warnings.catch_warnings(record=True) as w:
+            warnings.simplefilter("always")
+            try:
+                got_curve = gf.g_function_interpolation(5.0 / hq[q])[0]
+                warned = any("Extrapolation" in str(x.message) for x in w)
+                arr = np.array(got_curve, dtype=float)
+                if n == 1:
+                    cls = "stored" if np.max(np.abs(arr - np.array(curves[hs[0]]))) < 1e-9 else "other"
+                elif q in nearest:
+                    cls = "stored" if np.max(np.abs(arr - np.array(curves[nearest[q]]))) < 1e-6 else "other"
+                elif q == "inside":
+                    cls = "interp" if np.all(np.isfinite(arr)) and not warned else "other"
+                elif q == "below_tol":
+                    cls = "extrap" if np.all(np.isfinite(arr)) else "other"       # counted as in range by the code: no warning, but extrapolated values
+                else:
+                    cls = "extrap" if np.all(np.isfinite(arr)) and warned else "other"
+            except ValueError:
+                cls = "ValueError"
+            except Exception as ex:  # noqa: BLE001
+                cls = type(ex).__name__
+        if cls != want:
+            # the property's own clauses, judged directly
+            if q in nearest and cls != "stored":
+                bad.append(f"{n} stored curves, queries {qs}: query {i + 1} at the stored height ({q}) does not return the stored curve ({cls})")
+            elif q == "inside" and cls != "interp":
+                bad.append(f"{n} stored curves, queries {qs}: in-range query {i + 1} depends on the earlier queries ({cls})")
+            else:
+                return {"bad": bad, "drift": f"{n} curves, queries {qs}: query {i + 1} ({q}) model {want} vs code {cls}"}
+    return {"bad": bad, "drift": None}
+
+
+def ginterp(chk: Check):
+    t = tier()
+    mq = 2 if t == "quick" else 3
+    consts = f"CONSTANTS\n Ns <- c_Ns\n MaxQ = {mq}\n"
+    mod = "---- MODULE MC_GInterp ----\nEXTENDS GInterp\nc_Ns == 1..5\n====\n"
+    cfg = "INIT Init\nNEXT Next\nCHECK_DEADLOCK FALSE\n" + consts + "INVARIANT StoredHeightReturnsStoredCurve\nINVARIANT InRangeIndependentOfHistory\nINVARIANT OutsideDependsOnFirst\nINVARIANT Emit\n"
+    res = run_tlc("MC_GInterp", cfg, extra_modules={"MC_GInterp.tla": mod}, workers=1, timeout=1200)
+    chk.add_tlc(res)
+    if res.violated:
+        chk.violation(f"GInterp.tla invariant {res.violated} violated", {"state": res.stdout.split('\nState ')[-1][:800]})
+        return
+    require_tlc_ok(res, "GInterp")
+    items = res.prints
+    if len(items) < 50:
+        raise MachineryError("GInterp generated too few query sequences")
+    drift = 0
+    for it, r in zip(items, parallel_map(_ginterp_case, items, chunksize=16)):
+        for b in r["bad"][:1]:
+            chk.violation(f"C11 g_function_interpolation: {b}", {"case": it})
+        if r["drift"]:
+            drift += 1
+            chk.note("ginterp_drift_sample", r["drift"])
+    chk.traces += len(items)
+    chk.note("ginterp_query_sequences_replayed", len(items))
+    chk.note("ginterp_conformance_drift", drift)
